@@ -104,7 +104,7 @@ static std::string c18_case(const Case &c) {
   size_t n = nchunks * S - 5; // last chunk takes the padding
   Bytes P(n);
   for (size_t i = 0; i < n; i++) P[i] = ck == 0 ? (unsigned char)((i % S) * 5 + 1) /* all chunks equal */ : (unsigned char)(i * 7 + (i / S) * 31 + 1) /* all chunks distinct */;
-  std::string seed = fo::seed_of(sd), seed2 = fo::seed_of((sd + 1) % 5);
+  std::string seed = fo::seed_of(sd), seed2 = fo::seed_of((sd + 1) % fo::NSEEDS);
   fo::OpResult e = fo::wc_encrypt(P, KEY, cm, 0, seed, T), e2 = fo::wc_encrypt(P, KEY, cm, 0, seed2, T);
   if (!e.ret || !e2.ret) return "encrypt-failed|execute_encrypt returned false";
   size_t hdr = 48 + 20 * (size_t)T;
@@ -158,7 +158,7 @@ static void build(const Args &, std::vector<Case> &out) {
   } else {
     for (int T = 2; T <= 16; T++)
       for (int cm = 1; cm <= 4; cm++)
-        for (int sd = 0; sd < 5; sd++)
+        for (int sd = 0; sd < fo::NSEEDS; sd++)
           for (int ct = 0; ct < 2; ct++) {
             if (!THOROUGH && T > 4 && ((T + cm + sd + ct) % 4)) continue;
             Case c;
